@@ -288,6 +288,7 @@ func checkC19(c *Check) {
 			}
 		}
 		c.Ob("R2", "ValidateDeploymentGroups rejects an empty group list", vdg.Pos(), nonEmpty, "")
+		c.uniqueNamesRule("R2", "x/deployment/types", "", "ValidateDeploymentGroups")
 		var vcall *ssa.Call
 		for _, call := range callsIn(vdg, false) {
 			if calleeMethod(call) == "ValidateBasic" {
